@@ -83,6 +83,32 @@ def build_app(ending, nchild, when, log, ctl):
 
         add_teardown_callback(cb)
 
+    def td_aw(label):
+        """A plain callable returning a NON-coroutine awaitable (e.g. pool.close() of some libraries)."""
+        log.append(("registered", label))
+
+        class Aw:
+            def __await__(self):
+                log.append(("awaited", label))
+                yield from anyio.sleep(0).__await__()
+
+        def cb():
+            log.append(("td", label))
+            return Aw()
+
+        add_teardown_callback(cb)
+
+    def td_nested(label):
+        """A callback that registers a further callback while the teardown is running."""
+        log.append(("registered", label))
+
+        def cb():
+            log.append(("td", label))
+            log.append(("registered-late", "late-" + label, label))
+            add_teardown_callback(lambda: log.append(("td", "late-" + label)))
+
+        add_teardown_callback(cb)
+
     class Child(Component):
         def __init__(self, idx=0, fail=None, stall=False):
             self.idx, self.fail, self.stall = idx, fail, stall
@@ -132,6 +158,8 @@ def build_app(ending, nchild, when, log, ctl):
 
         async def prepare(self):
             td("root.prepare")
+            td_nested("root.nested")
+            td_aw("root.awaitable")
             ctl["started"] = anyio.Event()
             if ending in (21, 22, 23):
                 await start_service_task(crasher, "crasher")
@@ -239,12 +267,21 @@ def fn(a, tier):
     if sig is not None and not state["sent"]:
         return OK(summary, nontrivial=False)  # the application ended before the signal could be injected
     registered = [e[1] for e in log if e[0] == "registered"]
+    late = {e[2]: e[1] for e in log if e[0] == "registered-late"}
     ran = [e[1] for e in log if e[0] == "td"]
-    if sorted(ran) != sorted(registered):
-        missing = [x for x in registered if x not in ran]
-        return FAIL(f"teardown-callbacks-missing-or-duplicated:{ENDINGS[ending]}", f"registered={registered} ran={ran} missing={missing}", summary)
-    if ran != list(reversed(registered)):
-        return FAIL(f"teardown-order:{ENDINGS[ending]}", f"registered={registered} ran={ran}", summary)
+    expected = []
+    for label in reversed(registered):
+        expected.append(label)
+        if label in late:
+            expected.append(late[label])  # registered during teardown: runs next
+    if sorted(ran) != sorted(expected):
+        missing = [x for x in expected if x not in ran]
+        return FAIL(f"teardown-callbacks-missing-or-duplicated:{ENDINGS[ending]}", f"expected={expected} ran={ran} missing={missing}", summary)
+    if ran != expected:
+        return FAIL(f"teardown-order:{ENDINGS[ending]}", f"expected={expected} ran={ran}", summary)
+    for e in log:
+        if e[0] == "registered" and e[1].endswith(".awaitable") and ("awaited", e[1]) not in log:
+            return FAIL(f"awaitable-returned-by-a-teardown-callback-never-awaited:{ENDINGS[ending]}", e[1], summary)
     exp = expected_outcome(ending)
     short = outcome[:2]
     if outcome[0] == "raise" and outcome[1] == "BodyErr" and outcome[2] is not ctl["boom"]:
@@ -263,7 +300,7 @@ H = Harness(
     fn=fn,
     params=params,
     cube=lambda tier: 2,
-    title="every way and moment an application can end; components registering sync and async teardown callbacks",
+    title="every way and moment an application can end; components registering sync, async, awaitable-returning and self-extending teardown callbacks",
     bound_text=lambda tier: "ending in {" + "; ".join(ENDINGS) + "} x 0-2 children x moment 0-5 (signal step / crash delay); FIFO schedule with "
     + ("one deviation within 10 decisions" if tier == "quick" else "two deviations"),
     oracle="every teardown callback registered on the root context ran exactly once, in reverse order, before run_application returned or raised; "
